@@ -3,8 +3,11 @@ import archlib
 
 ID = "C05"
 from genf import translate  # noqa: E402,F401  (regenerates lean/PyribsGen/Formulas.lean from the tree under check)
-PROOF_MODULES = ["PyribsProofs.C05", "PyribsGen.Formulas", "PyribsProofs.GenF"]
+PROOF_MODULES = ["PyribsProofs.C05", "PyribsGen.Formulas", "PyribsProofs.GenF", "PyribsGen.Control",
+                 "PyribsProofs.GenFArch"]
 THEOREMS = [
+    "Pyribs.GenFProofs.single_newthr_from_source",
+    "Pyribs.GenFProofs.batch_newthr_from_source",
     "Pyribs.GenFProofs.batch_threshold_matches",
     "Pyribs.GenFProofs.single_threshold_matches",
     "Pyribs.C05.thr_update",
